@@ -516,6 +516,31 @@ def rsa_pool_cached(ctx):
     return _RSA
 
 
+def run_buffers(ctx):
+    """A key imported from a mutable buffer (a reused receive buffer, a secret the caller wipes afterwards) is a value of its own:
+    its export, its thumbprint and the octets it signs with stay those of the secret it was imported from."""
+    import hashlib as _h
+    secrets_in = [bytes(range(1, 33)), b"\xff" * 16 + b"\x00" * 16, _h.sha256(b"third secret").digest(), b"k" * 7]
+    for how in ("OctKey.import_key", "JsonWebKey.import_key"):
+        buf = bytearray(32)
+        keys = []
+        for secret in secrets_in:
+            buf[:len(secret)] = secret
+            view = buf if len(secret) == 32 else bytearray(buf[:len(secret)])
+            keys.append((secret, view, OctKey.import_key(view) if how == "OctKey.import_key" else JsonWebKey.import_key(view, {"kty": "oct"})))
+        for secret, view, key in keys:
+            for i in range(len(view)):
+                view[i] = 0                      # the caller wipes / reuses its buffer
+        for n, (secret, view, key) in enumerate(keys):
+            case = {"buffer_import": how, "secret_len": len(secret), "n": n}
+            ctx.case(case, ("buffer", how, n), "buffer:%s" % how)
+            out = dict(key.as_dict(is_private=True)) if how != "OctKey.import_key" else dict(key.as_dict())
+            thumb, _ = thumb_independent("oct", {"k": b64u(secret)})
+            if out.get("k") != b64u(secret) or key.thumbprint() != thumb or bytes(key.get_op_key("sign")) != secret:
+                ctx.violation("C16:oct:follows-the-callers-buffer", "an oct key imported from a bytearray changed when the caller's buffer did "
+                              "(export, thumbprint or signing octets are no longer those of the imported secret)", case)
+
+
 def run(ctx):
     ctx.rule = ("codecs: boundary and seeded random integers (<=4096 bit) and hostile base64 text; keys: EC scalars "
                 "(random, small, and constructed to give a short coordinate) on 4 curves, RSA fixtures + fresh keys, "
@@ -528,6 +553,7 @@ def run(ctx):
     run_key_sets(ctx)
     run_key_histories(ctx)
     run_jwk_members_kept(ctx)
+    run_buffers(ctx)
 
 
 def run_case(ctx, case):
